@@ -17,6 +17,12 @@ PREDS = [EX.p, EX.q, EX.r]
 def gen_nexpr(rng, nodes, position):
     r = rng.random()
     if position == "p":
+        # mostly a constant; sometimes the focus node itself or what a path reaches from it (sh:this is an IRI as well,
+        # but not a constant)
+        if r < 0.2:
+            return ("this",)
+        if r < 0.28:
+            return ("path", ("pred", str(rng.choice(PREDS))))
         return ("const", rng.choice(PREDS + [EX.s, RDF.type]))
     if r < 0.4:
         return ("this",)
